@@ -134,7 +134,13 @@ MemberSETExpression * MemberSETExpression::parse(Parser& p, Context& ctx, Expres
   /* item no MUST be constant */
   if (t->code != TOKEN_INTEGER)
     throw ParseError(EXC_PARSE_BAD_MEMB_CALL_S, KEYWORDS[BTM_SET], t);
-  unsigned item_no = (unsigned)std::stoul(t->text, nullptr, 10);
+  /* the rank must fit: no wrap around, no foreign exception */
+  unsigned long item_rank = 0;
+  try { item_rank = std::stoul(t->text, nullptr, 10); }
+  catch (std::out_of_range&) { item_rank = (unsigned long)(-1); }
+  if (item_rank > 0xffff)
+    throw ParseError(EXC_PARSE_OUT_OF_INDICE, t->text.c_str(), t);
+  unsigned item_no = (unsigned)item_rank;
 
   try
   {
